@@ -11,6 +11,7 @@ import (
 	"strings"
 
 	"verifharness/engines/c01"
+	"verifharness/engines/c13"
 	"verifharness/engines/xeng"
 	"verifharness/gen"
 )
@@ -23,7 +24,13 @@ type respJSON struct {
 	} `json:"errors"`
 }
 
+var outDir string
+
 func extra(prop string, probes []xeng.Probe, meta *gen.Meta) error {
+	// faults inside deferred groups: null propagation stops at the group's object, one error per failure
+	if err := c13.SingleFaultCases(outDir, prop, "c04", probes, meta); err != nil {
+		return err
+	}
 	if prop != "C04" {
 		return nil
 	}
@@ -154,6 +161,7 @@ func Run(c *gen.Ctx) error {
 		cfgs = xeng.ThoroughConfigs
 		nops, perOp = 150, 4
 	}
+	outDir = c.OutDir
 	c01.ExtraChecks = extra
 	defer func() { c01.ExtraChecks = nil }()
 	return c01.RunFull(c, "C04", cfgs, nops, perOp, true, false)
